@@ -896,7 +896,19 @@ def _def_to_py_ast(  # pylint: disable=too-many-locals
     assert node.op == NodeOp.DEF
 
     defsym = node.name
-    ns_name = _load_attr(_NS_VAR_VALUE)
+    ns_name: ast.expr
+    if node.env.func_ctx is not None:
+        # A `def` in a function body runs whenever the function is called, possibly
+        # while `*ns*` is some other namespace. The Var was resolved (and references
+        # to it were compiled) in the namespace the function was defined in, so that
+        # is the namespace it must be interned in.
+        ns_name = ast.Call(
+            func=_NEW_SYM_FN_NAME,
+            args=[ast.Constant(node.var.ns.name)],
+            keywords=[],
+        )
+    else:
+        ns_name = _load_attr(_NS_VAR_VALUE)
     def_name = ast.Call(
         func=_NEW_SYM_FN_NAME, args=[ast.Constant(defsym.name)], keywords=[]
     )
